@@ -180,10 +180,27 @@ pub fn family_member(t: &Tables, rng: &mut StdRng, fi: usize) -> Option<BoardSta
         let stm = rng.gen_range(0..2u32);
         match fi % 3 {
             0 => {
-                // kings at home, a random non-empty subset of corner rooks with their rights, 1-3 random officers
-                put(&mut pcs, &mut used, 5, 6);
-                put(&mut pcs, &mut used, 61, 12);
+                // kings at home, a random non-empty subset of corner rooks with their rights, 1-3 random officers;
+                // in half of the members only the side to move keeps rights and the other king stands anywhere
+                // (castling that gives check, castling next to the enemy king)
+                let roam = rng.gen_bool(0.5);
+                if roam {
+                    let (ks, opp) = if stm == 0 { (5u32, 12u32) } else { (61u32, 6u32) };
+                    put(&mut pcs, &mut used, ks, if stm == 0 { 6 } else { 12 });
+                    let mut osq = rng.gen_range(1..=64u32);
+                    while osq == ks || [1u32, 8, 57, 64].contains(&osq) {
+                        osq = rng.gen_range(1..=64u32);
+                    }
+                    put(&mut pcs, &mut used, osq, opp);
+                } else {
+                    put(&mut pcs, &mut used, 5, 6);
+                    put(&mut pcs, &mut used, 61, 12);
+                }
                 for (sq, pc, bit) in [(8u32, 4u32, 1u32), (1, 4, 2), (64, 10, 4), (57, 10, 8)] {
+                    let white_right = bit <= 2;
+                    if roam && white_right != (stm == 0) {
+                        continue;
+                    }
                     if rng.gen_bool(0.6) {
                         put(&mut pcs, &mut used, sq, pc);
                         cr |= bit;
@@ -212,6 +229,11 @@ pub fn family_member(t: &Tables, rng: &mut StdRng, fi: usize) -> Option<BoardSta
                 let kr = if rng.gen_bool(0.5) { cap_rank } else { rng.gen_range(1..=8u32) };
                 put(&mut pcs, &mut used, 8 * (kr - 1) + rng.gen_range(1..=8u32), 6 + 6 * (1 - c));
                 put(&mut pcs, &mut used, rng.gen_range(1..=64), 6 + 6 * c);
+                // a slider of the CAPTURING side as well (the capture may discover a check on the other king)
+                if rng.gen_bool(0.5) {
+                    let kind = [3u32, 4, 5][rng.gen_range(0..3)];
+                    put(&mut pcs, &mut used, rng.gen_range(1..=64), kind + 6 * (1 - c));
+                }
                 // sliders of the double-stepping side (pin candidates) and one extra pawn pair
                 for _ in 0..rng.gen_range(1..=2) {
                     let kind = [3u32, 4, 5][rng.gen_range(0..3)];
